@@ -67,6 +67,10 @@ class State:
         s.locals, s.heap, s.ver, s.defs = dict(self.locals), dict(self.heap), dict(self.ver), dict(self.defs)
         s.conds, s.events = list(self.conds), list(self.events)
         s.end, s.ret, s.loops, s.stack = self.end, self.ret, self.loops, self.stack
+        if hasattr(self, "_yield"):
+            s._yield = list(self._yield)
+        if hasattr(self, "_caller_locals"):
+            s._caller_locals = dict(self._caller_locals)
         return s
 
 
@@ -246,6 +250,28 @@ class Exec:
         return x.end == "raise"
 
     def s_Expr(self, s, st):
+        if isinstance(s.value, ast.Yield) and getattr(st, "_yield", None):
+            loop, caller_locals, cdefs, cstack = st._yield[-1]
+            out = []
+            for v, x in (self.ev(s.value.value, st) if s.value.value is not None else [(_const(None), st)]):
+                if self.raised(x):
+                    out.append(x)
+                    continue
+                gen_locals, gen_defs, gen_stack, gen_yield = x.locals, x.defs, x.stack, x._yield
+                x.locals = dict(getattr(x, "_caller_locals", caller_locals))
+                x.defs, x.stack = dict(cdefs), cstack
+                x._yield = gen_yield[:-1]
+                outer = x.loops
+                x.loops = outer + ((id(loop), 1, "for"),)
+                for y in self.assign(loop.target, v, x, loop):
+                    for z in self.block(loop.body, y):
+                        z.loops = outer
+                        z._caller_locals = dict(z.locals)
+                        if z.end in ("fall", "continue"):
+                            z.end = "fall"
+                            z.locals, z.defs, z.stack, z._yield = dict(gen_locals), dict(gen_defs), gen_stack, gen_yield
+                        out.append(z)
+            return out
         return [x for _, x in self.ev(s.value, st)]
 
     def s_Pass(self, s, st):
@@ -607,7 +633,65 @@ class Exec:
                 return [ast.Tuple(elts=list(row), ctx=ast.Load()) for row in zip(*cols)], srt
         return None, False
 
+    def generator_loop(self, s, st):
+        """`for target in self._gen(args):` over a generator helper of the class: the generator is executed in line and every `yield v`
+        runs the loop body with target = v.  None when the iterable is not such a call (or the loop uses break / else)."""
+        if not isinstance(s.iter, ast.Call) or s.orelse or any(isinstance(n, ast.Break) for n in au.walk(ast.Module(body=s.body, type_ignores=[]))):
+            return None
+        c = s.iter
+        if any(isinstance(a, ast.Starred) for a in c.args) or any(k.arg is None for k in c.keywords):
+            return None
+        if isinstance(c.func, ast.Attribute):
+            fres = [(ast.Attribute(value=b, attr=c.func.attr, ctx=ast.Load()), x) for b, x in self.ev(c.func.value, st.fork())]
+        else:
+            fres = self.ev(c.func, st.fork())
+        if len(fres) != 1:
+            return None
+        cal = self.resolve_callee(fres[0][0], st)
+        if cal is None or cal[0].name in self.opaque or not any(isinstance(n, (ast.Yield,)) for n in au.walk(cal[0])) \
+                or any(isinstance(n, ast.YieldFrom) for n in au.walk(cal[0])):
+            return None
+        fn, recv, name = cal
+        q = getattr(fn, "_qualname", fn.name)
+        if len(st.stack) >= self.max_depth or q in st.stack:
+            return None
+        a = fn.args
+        if a.vararg or a.kwarg or a.kwonlyargs:
+            return None
+        out = []
+        f, x0 = fres[0]
+        for vals, x in self.ev_list(list(c.args) + [k.value for k in c.keywords], st):
+            pos = [p_.arg for p_ in a.posonlyargs + a.args]
+            args = ([recv] if recv is not None else []) + vals[:len(c.args)]
+            bound = dict(zip(pos, args))
+            for k, v in zip(c.keywords, vals[len(c.args):]):
+                bound[k.arg] = v
+            defaults = dict(zip(pos[len(pos) - len(a.defaults):], a.defaults))
+            if any(p_ not in bound and not isinstance(defaults.get(p_), ast.Constant) for p_ in pos):
+                return None
+            for p_ in pos:
+                bound.setdefault(p_, defaults.get(p_))
+            saved = (x.locals, x.defs, x.stack)
+            x.events.append(Event("inline", s.iter, x, name=name, args=list(args), kwargs={}, call=fn))
+            caller_locals = dict(x.locals)
+            x.locals = dict(bound)
+            x.defs = {}
+            x.stack = x.stack + (q,)
+            x._yield = getattr(x, "_yield", []) + [(s, caller_locals, saved[1], saved[2])]
+            for y in self.block(fn.body, x):
+                y._yield = getattr(y, "_yield", [None])[:-1]
+                # the locals of the loop body live in the caller: they were written back at every yield
+                y.locals = getattr(y, "_caller_locals", caller_locals)
+                y.defs, y.stack = dict(saved[1]), saved[2]
+                if y.end in ("return", "fall", "continue"):
+                    y.end, y.ret = "fall", None
+                out.append(y)
+        return out
+
     def s_For(self, s, st):
+        g = self.generator_loop(s, st)
+        if g is not None:
+            return g
         out = []
         for itv, x in self.ev(s.iter, st):
             if self.raised(x):
@@ -1089,7 +1173,17 @@ class Exec:
         for f, x in fres:
             argn = list(e.args) + [k.value for k in e.keywords]
             for vals, y in self.ev_list(argn, x):
-                args = vals[:len(e.args)]
+                args = []
+                for a_ in vals[:len(e.args)]:
+                    # f(*t) with t a tuple / list whose elements are known on this path: the elements are the arguments
+                    if isinstance(a_, ast.Starred):
+                        inner = a_.value
+                        items = list(inner.elts) if isinstance(inner, (ast.Tuple, ast.List)) else \
+                            (self.contents(inner.id, y) if self.kind(inner) == "display" else None)
+                        if items is not None and not any(isinstance(i_, ast.Starred) for i_ in items):
+                            args.extend(items)
+                            continue
+                    args.append(a_)
                 kwargs = {k.arg: v for k, v in zip(e.keywords, vals[len(e.args):])}
                 # len(self) -> __len__
                 if isinstance(f, ast.Name) and f.id == "len" and len(args) == 1 and isinstance(args[0], ast.Name) and args[0].id == "self" \
